@@ -273,7 +273,7 @@ def sim_replay(ctx, pat, num, depth):
 
 
 # ------------------------------------------------------------------ code -> spec
-def record(fname, kind, opts, bck, phase, crash_at, debug, seed, tid, abort=False):
+def record(fname, kind, opts, bck, phase, crash_at, debug, seed, tid, abort=False, warn_error=False):
     W, c = base_tensors(seed)
     R = Repr(kind, W, c)
     rec = Recorder(R.objects)
@@ -285,7 +285,9 @@ def record(fname, kind, opts, bck, phase, crash_at, debug, seed, tid, abort=Fals
     dbg0 = xitorch.is_debug_enabled()
     import io
     with rec, warnings.catch_warnings(), contextlib.redirect_stdout(io.StringIO()):
-        warnings.simplefilter("ignore")
+        # (warn_error: the caller runs with warnings as errors - the failure then comes from the library's own convergence
+        # warning, raised after the iteration loop / inside the backward solve, not from the user's function)
+        warnings.simplefilter("error" if warn_error else "ignore")
         try:
             with (xitorch.enable_debug() if debug else contextlib.nullcontext()):
                 out = run_functional(fname, R, opts=opts, bck=bck)
@@ -367,9 +369,9 @@ def crash_traces(ctx, thorough):
     traces = []
     tid = [0]
 
-    def add(fname, kind, opts, bck, phase, k, debug=False, abort=False):
+    def add(fname, kind, opts, bck, phase, k, debug=False, abort=False, warn_error=False):
         tid[0] += 1
-        tr, cnt = record(fname, kind, opts, bck, phase, k, debug, ctx.seed, tid[0], abort=abort)
+        tr, cnt = record(fname, kind, opts, bck, phase, k, debug, ctx.seed, tid[0], abort=abort, warn_error=warn_error)
         traces.append(tr)
         return cnt
     for fname in FUNCTIONALS:
@@ -396,6 +398,12 @@ def crash_traces(ctx, thorough):
                             for k in (ks if thorough else sorted(set([K // 2, K - 2, K - 1, K]))):
                                 if 1 <= k <= K:
                                     add(fname, kind, opts, bck, phase, k, abort=True)
+    # warnings as errors: the library's own convergence warning is the failure (starved forward budget; starved backward solve)
+    for fname in ("rootfinder", "equilibrium", "minimize"):
+        for kind in (kinds if thorough else ["nn", "edit", "msib3"]):
+            add(fname, kind, dict(METHOD_OPTS[fname][0], maxiter=1), None, 0, None, warn_error=True)
+            for phase in (1, 2):
+                add(fname, kind, METHOD_OPTS[fname][0], {"method": "cg", "max_niter": 1}, phase, None, warn_error=True)
     # a LinearOperator product raises (solve / symeig on a user-defined operator)
     for which, methods in (("solve", ("cg", "bicgstab") if not thorough else ("cg", "bicgstab", "gmres", "broyden1", "custom_exactsolve")),
                            ("symeig", ("davidson",) if not thorough else ("davidson", "custom_exacteig"))):
